@@ -873,6 +873,18 @@ def check_api(case):
                             name, list(r.pattern_descriptors.get('index', [])), case['index_vals']),
                         'api:descriptors:index')
         require(r.n_cond == case['n'], '%s predict_rdm n_cond %r' % (name, r.n_cond), 'api:descriptors')
+        # the vector prediction is the caller's array: normalising it in place must not reach the
+        # model (asked again, it predicts the same)
+        v_first = np.array(v, copy=True)
+        vv = lib(model.predict, th, on_error='violation', sig='api:raises:predict') if th is not None \
+            else lib(model.predict, on_error='violation', sig='api:raises:predict')
+        if isinstance(vv, np.ndarray) and vv.flags.writeable and vv.dtype.kind == 'f':
+            vv[...] = -3.0
+            v_again = lib(model.predict, th, on_error='violation', sig='api:raises:predict') \
+                if th is not None else lib(model.predict, on_error='violation', sig='api:raises:predict')
+            require(np.array_equal(np.asarray(v_again, dtype=float), v_first, equal_nan=True),
+                    '%s: overwriting a returned predict() vector changed the next prediction' % name,
+                    'api:prediction-is-a-view')
         # the prediction is the caller's object: putting it into another order in place must not
         # reach the model (the next prediction is checked against the same labels again)
         if r.n_cond >= 2:
